@@ -5,6 +5,7 @@ package wlapi
 import (
 	"encoding/json"
 	"math/rand"
+	"net/url"
 
 	libtime "github.com/formancehq/go-libs/v5/pkg/types/time"
 
@@ -22,6 +23,11 @@ type txbodyIn struct {
 	Body *JT    `json:"body"` // nil = empty body
 	// Force: `?force=true` (createV2)
 	Force bool `json:"force,omitempty"`
+	// DryRun: raw value of `?dryRun=` (v2) / `?preview=` (v1); SchemaVersion: `?schemaVersion=` (v2);
+	// IK: Idempotency-Key header ("" = absent)
+	DryRun        string `json:"dryRun,omitempty"`
+	SchemaVersion string `json:"schemaVersion,omitempty"`
+	IK            string `json:"ik,omitempty"`
 	// Times: every string of the body → go-libs time.ParseTime result ("" = error);
 	// the calendar parser is executed, not modelled.
 	Times map[string]string `json:"times"`
@@ -76,6 +82,25 @@ func runTxbody(in txbodyIn) txbodyOut {
 	}
 	if in.Body != nil {
 		h.Body = in.Body.Render()
+	}
+	q := url.Values{}
+	if h.Query != "" {
+		q.Set("force", "true")
+	}
+	isV1 := in.Kind == "createV1" || in.Kind == "metaV1"
+	if in.DryRun != "" {
+		if isV1 {
+			q.Set("preview", in.DryRun)
+		} else {
+			q.Set("dryRun", in.DryRun)
+		}
+	}
+	if in.SchemaVersion != "" && !isV1 {
+		q.Set("schemaVersion", in.SchemaVersion)
+	}
+	h.Query = q.Encode()
+	if in.IK != "" {
+		h.Headers = map[string]string{"Idempotency-Key": in.IK}
 	}
 	out, fake := runHTTPFake(h)
 	res := txbodyOut{Status: out.Status, ErrorCode: out.ErrorCode, Panic: out.Panic != "" || (out.Status >= 500 && out.BodyLen == 0)}
@@ -235,13 +260,22 @@ func genTxbodyIn(c *gen.Ctx) txbodyIn {
 			in.Body, _ = mutateTree(r, in.Body)
 		}
 	}
+	if r.Intn(3) == 0 {
+		in.DryRun = gen.Pick(r, []string{"true", "TRUE", "1", "yes", "YES", "false", "0", "no"})
+	}
+	if r.Intn(3) == 0 {
+		in.SchemaVersion = gen.Pick(r, []string{"v1", "v2"})
+	}
+	if r.Intn(3) == 0 {
+		in.IK = gen.Pick(r, []string{"ik-1", "ík-3", "ik\"2"})
+	}
 	in.Times = map[string]string{}
 	collectStrings(in.Body, in.Times)
 	return in
 }
 
 func init() {
-	for _, name := range []string{"txbody", "txbody36"} {
+	for _, name := range []string{"txbody", "txbody36", "txbody14"} {
 		name := name
 		gen.Register(name, func(c *gen.Ctx) error {
 			if c.Replay != "" {
